@@ -1,6 +1,7 @@
 (* C18 -- the bytes of the protobuf writer decode under the generated .proto.
    This file only pins statements; proofs live in Proto/SchemaProofs.v. *)
-From A1 Require Import Proto.Wire Proto.Rw Proto.Schema Proto.Proofs Proto.SchemaProofs.
+From A1 Require Import Proto.Wire Proto.Rw Proto.Schema Proto.Proofs Proto.SchemaProofs Proto.RwLemmas
+  Proto.RoundtripProofs Proto.DecodeProofs.
 Local Open Scope N_scope.
 
 (** field / oneof numbering of the emitted schema: position j (from 0) carries number j+1 and the
@@ -26,6 +27,19 @@ Theorem C18_decodes_under_schema_partial : forall m b x oy,
              pb_decode flat_schema bs = Some (flat_expected b x oy) /\
              pb_of_val flat_ty v = Some (flat_expected b x oy).
 Proof. exact decodes_flat. Qed.
+
+(** unbounded: for every generated message type (top-level SEQUENCE / SET in visit order / tuple struct / CHOICE, any
+    nesting of messages, lists of scalars / enums / messages / CHOICEs, oneofs) outside the finding classes and every
+    value, the writer's bytes decode under [schema_of t] with the reference decoder to exactly the field values
+    [pb_of_val t v]: field numbers, wire types, oneof numbering, enum numbering and nesting all match.
+    [Known_C18 t v] = [Known_C17 t v]: a CHOICE with a NULL or SEQUENCE OF alternative, SEQUENCE OF SEQUENCE OF,
+    SEQUENCE OF NULL, or a BitVec with excess bytes; the SET numbering class lives at the declaration level ([decl],
+    C18_refuted_set_order) and is outside [pty]. A top-level ENUMERATED has no message schema ([schema_of] = None). *)
+Theorem C18_decodes_under_schema : forall m t v msg,
+  wf_pty t -> wf_pval t v -> ~ Known_C18 t v -> schema_of t = Some msg ->
+  exists bs, pwrite m t v = Ok bs /\
+    (nlen bs < two64 -> exists vals, pb_decode msg bs = Some vals /\ pb_of_val t v = Some vals).
+Proof. exact decodes_unbounded. Qed.
 
 (** the emitted schema is valid proto3 for the listed representative types *)
 Theorem C18_schema_valid_partial : forall t, In t good_types -> schema_valid t = true.
@@ -93,8 +107,40 @@ Example C18_nonvacuous :
   = Some [BNum 2; BRep [BNum (-1); BNum 2; BNum (-2)]].
 Proof. vm_compute. repeat split; try reflexivity. do 13 right. left. reflexivity. Qed.
 
+(* NEW class (model level): SEQUENCE OF NULL is declared `repeated bytes` but no element is ever written *)
+Theorem C18_refuted_list_of_null :
+  let t := TSeq [(false, TSeqOf TNull); (false, TInt KU8)] in
+  let v := VSeq [VList [VNull; VNull]; VInt 7] in
+  exists m, schema_of t = Some m /\ pwrite_vec dev_mode t v = Ok [16; 7] /\
+    pb_decode m [16; 7] = Some [BRep []; BNum 7] /\
+    pb_of_val t v = Some [BRep [BBytes []; BBytes []]; BNum 7].
+Proof.
+  exists [(1, PRepeated (PScalar SBytes)); (2, PScalar SUInt32)]. vm_compute. repeat split; reflexivity.
+Qed.
+
+Example C18_decodes_nonvacuous :
+  let t := TSeq [(false, TBool); (true, TStr);
+     (false, TSeqOf (TSeq [(false, TInt KU16); (true, TStr)]));
+     (false, TChoice [TInt KI16; TSeq [(false, TInt KU16)]; TEnum 3]);
+     (true, TSeqOf (TInt KU8)); (false, TBits); (false, TNull); (false, TInt KI64)] in
+  let v := VSeq [VBool true; VOpt None; VList [VSeq [VInt 300; VOpt (Some (VStr [104]))]; VSeq [VInt 1; VOpt None]];
+     VChoice 1 (VSeq [VInt 7]); VOpt (Some (VList [])); VBits [160] 3; VNull; VInt (-2)] in
+  wf_pty t /\ wf_pval t v /\ ~ Known_C18 t v /\
+  exists msg, schema_of t = Some msg /\
+    pb_decode msg [8; 1; 26; 6; 8; 172; 2; 18; 1; 104; 26; 2; 8; 1; 34; 4; 18; 2; 8; 7; 50; 9; 160; 0; 0; 0; 0; 0; 0; 0; 3; 64; 3]
+    = Some [BNum 1; BBytes []; BRep [BMsg (Some [BNum 300; BBytes [104]]); BMsg (Some [BNum 1; BBytes []])];
+            BMsg (Some [BOneof (Some (2, BMsg (Some [BNum 7])))]); BRep []; BBytes [160; 0; 0; 0; 0; 0; 0; 0; 3];
+            BBytes []; BNum (-2)].
+Proof.
+  cbv zeta. split; [split; reflexivity|]. split; [reflexivity|]. split.
+  - intros [K|E]; [apply known_not_good in K; vm_compute in K; discriminate K|vm_compute in E; discriminate E].
+  - eexists. split; [reflexivity|]. vm_compute. reflexivity.
+Qed.
+
 Print Assumptions C18_numbers_match.
 Print Assumptions C18_decodes_under_schema_partial.
+Print Assumptions C18_decodes_under_schema.
+Print Assumptions C18_refuted_list_of_null.
 Print Assumptions C18_schema_valid_partial.
 Print Assumptions C18_refuted_set_order.
 Print Assumptions C18_refuted_nested_list_proto.
